@@ -157,7 +157,10 @@ impl OutputConfig {
         // Compact output when indent is 0 (yq-compatible)
         let compact = args.indent == 0;
 
-        let indent_str = if compact {
+        // YAML block output has no zero-width form: an empty indent would print
+        // nested collections at the parent's column and change the value. `-I0`
+        // YAML falls through to the clamp below (2), as the streaming path does.
+        let indent_str = if compact && args.output_format != OutputFormat::Yaml {
             String::new()
         } else if args.tab {
             "\t".to_string()
